@@ -162,6 +162,23 @@ LEMMAS['SUM/ext'] = dict(
     hyps=['n >= 0', 'forall(j, 0, n, f[j] == g[j])'],
     induct=('m', '0', 'n', 'Sum(j, m, f[j]) == Sum(j, m, g[j])'))
 
+# ---- Count bounds: the engine attaches the instance  0 <= Count(q, n, c(q)) <= max(n, 0)  to every Count term (pyvc/lemmas.py named_array)
+LEMMAS['SUM/count-bounds'] = dict(
+    vars={'f': ('list', 'int'), 'n': 'int'},
+    hyps=['n >= 0', 'forall(j, 0, n, 0 <= f[j] and f[j] <= 1)'],
+    induct=('m', '0', 'n', '0 <= Sum(j, m, f[j]) and Sum(j, m, f[j]) <= m'))
+
+# ---- C07: the strict lexicographic order is total on profiles of one length: if neither is more greedy (generous) than the
+#      other they are equal entry by entry.  (run's postcondition states attainment of the greedy profile through the order.)
+LEMMAS['C07/greedy-order-total'] = dict(
+    vars={'a': ('list', 'int'), 'b': ('list', 'int'), 'n': 'int'},
+    hyps=['n >= 0', 'len(a) == n', 'len(b) == n', 'not more_greedy(a, b)', 'not more_greedy(b, a)'],
+    induct=('m', '0', 'n', 'forall(j, 0, m, a[j] == b[j])'))
+LEMMAS['C07/generous-order-total'] = dict(
+    vars={'a': ('list', 'int'), 'b': ('list', 'int'), 'n': 'int'},
+    hyps=['n >= 0', 'len(a) == n', 'len(b) == n', 'not more_generous(a, b)', 'not more_generous(b, a)'],
+    induct=('m', '0', 'n', 'forall(j, n - m, n, a[j] == b[j])'))
+
 # ---- C05: in a list with non-decreasing ranks, "entries with rank <= aim" is a prefix
 LEMMAS['C05/prefix-filter'] = dict(
     vars={'r': ('list', 'int'), 'x': ('list', 'int'), 'n': 'int', 'idx': 'int', 'aim': 'int'},
